@@ -58,6 +58,11 @@ WINDOW_PATHS = ["load.fast_confirmed", "load.fast_changed_debt_returned", "load.
                 "load.fallback_helped", "write.helped_reader", "write.help_lost_race"]
 
 
+def miri_core_job(pid, profile, tier, quick_seeds=6, thorough_seeds=160):
+    return {"name": pid + ".miri.core", "flavour": "miri", "args": ["core", "profile=" + profile, "mode=free", "alloc=real", "execs=1", "threads=3", "ops_lo=5", "ops_hi=8"],
+            "miri_seeds": T(tier, quick_seeds, thorough_seeds), "timeout": 1500}
+
+
 def plan_core(pid, profile, level_text, extra_jobs=None, required=WINDOW_PATHS, asan=True, memcheck=False):
     def jobs(tier, seed):
         js = [
@@ -165,12 +170,12 @@ PLANS["C01"] = plan_core("C01", "c01", "ledger + sanitizers over scheduled execu
 PLANS["C02"] = plan_core("C02", "c02", "conservation law at quiescent points", memcheck=True,
                          extra_jobs=lambda tier, seed: miri_race_jobs("C02", tier, [("a", "tp"), ("c", "tp"), ("b", "arc")], 8, 192))
 PLANS["C03"] = plan_core("C03", "c03", "history linearizability", asan=False,
-                         extra_jobs=lambda tier, seed: [life_job("C03.life.token", "token", execs=T(tier, 400, 20000), profile="c03")])
-PLANS["C04"] = plan_core("C04", "c04", "chain / conservation of writes", asan=False, required=["load.fast_confirmed", "load.fallback_confirmed", "write.helped_reader"])
-PLANS["C05"] = plan_core("C05", "c05", "compare-and-swap histories", asan=False, required=["cas.internal_retry", "load.fallback_confirmed"])
-PLANS["C06"] = plan_core("C06", "c06", "rcu histories", asan=False, required=["rcu.retried", "load.fallback_confirmed"])
+                         extra_jobs=lambda tier, seed: [life_job("C03.life.token", "token", execs=T(tier, 400, 20000), profile="c03"), miri_core_job("C03", "c03", tier)])
+PLANS["C04"] = plan_core("C04", "c04", "chain / conservation of writes", asan=False, extra_jobs=lambda tier, seed: [miri_core_job("C04", "c04", tier, 4, 96)], required=["load.fast_confirmed", "load.fallback_confirmed", "write.helped_reader"])
+PLANS["C05"] = plan_core("C05", "c05", "compare-and-swap histories", asan=False, extra_jobs=lambda tier, seed: [miri_core_job("C05", "c05", tier, 4, 96)], required=["cas.internal_retry", "load.fallback_confirmed"])
+PLANS["C06"] = plan_core("C06", "c06", "rcu histories", asan=False, extra_jobs=lambda tier, seed: [miri_core_job("C06", "c06", tier, 4, 96)], required=["rcu.retried", "load.fallback_confirmed"])
 PLANS["C10"] = plan_core("C10", "c10", "guard identity / ownership ledger")
-PLANS["C12"] = plan_core("C12", "c12", "per-container histories", asan=False, required=WINDOW_PATHS + ["write.help_other_storage"])
+PLANS["C12"] = plan_core("C12", "c12", "per-container histories", asan=False, extra_jobs=lambda tier, seed: [miri_core_job("C12", "c12", tier, 4, 96)], required=WINDOW_PATHS + ["write.help_other_storage"])
 PLANS["C07"] = plan_c07()
 
 
